@@ -1,5 +1,6 @@
 import Driver.Proto
 import PtVerif.Model.Loaders
+import PtVerif.Model.LoaderTables
 import PtVerif.Generated.ElementBase
 import PtVerif.Generated.Constants
 import PtVerif.Generated.MassTables
@@ -48,14 +49,6 @@ structure St where
   dens : List (Nat × Option Float) := []
 
 def init : St := {}
-
-/-- `table[z].symbol` as a code, from `Generated.ElementBase` -/
-def symOf (z : Nat) : Option Nat :=
-  (PtGen.elementBase.find? (fun r => r.1 == z)).map (fun r => r.2.2.2.1)
-
-/-- `getattr(table, symbol)` for an element symbol -/
-def zOf (code : Nat) : Option Nat :=
-  (PtGen.elementBase.find? (fun r => r.2.2.2.1 == code)).map (fun r => r.1)
 
 def showO : Option Float → String
   | some x => showF x
